@@ -125,9 +125,14 @@ def strategy(tier: str):
     )
 
 
+def opt_cases(tier: str):
+    """Cases also executed by an interpreter started with -O (see vf/optpass.py)."""
+    return drive.opt_sweep_cases(tier)
+
+
 def enumerate_cases(tier: str):
     # one event of every kind under every environment dimension (transport kind, logging, warnings, a bystander gateway, registry file, ...)
-    yield from drive.env_sweep_cases()
+    yield from drive.all_sweep_cases()
     # every value type around and beyond the per-version tables: stored from a file, stored by a set, never stored; then requested
     types = list(range(0, 60)) + [99, 200, 255, 2**31]
     for version in (None, "1.4", "1.5", "2.0", "2.1", "2.2"):
